@@ -223,7 +223,9 @@ class State:
             d = {}
             for k in fa.keys() | fb.keys():
                 if isinstance(k, tuple):
-                    d[k] = fa.get(k) if k in fa else fb.get(k)
+                    # named root-frame slots (materialised parameters, interned constants, fresh referents): present on one side only
+                    # means "not created on the other path"; present on both sides with different contents (written through a &mut) joins
+                    d[k] = (fa[k] if fa[k] == fb[k] else join(fa[k], fb[k])) if (k in fa and k in fb) else (fa.get(k) if k in fa else fb.get(k))
                 elif isinstance(k, str):
                     if k == "__focus":
                         if k in fa and k in fb:
@@ -1029,13 +1031,29 @@ class Interp:
                         # the referent lives in the root frame: the callee may return a reference derived from it
                         st.frames[0][("p", f["key"], pi)] = d
                         frame[pi] = ("ref", 0, ("p", f["key"], pi), ())
+        self.ret_outer = getattr(self, "ret_outer", [])
+        self.ret_outer.append(None)
         try:
             ret = self.run_region(fv, st, depth, 0, None, {})
         finally:
             self.fn_stack.pop()
+            outer = self.ret_outer.pop()
+        if outer is not None:
+            # the caller-visible state (everything below this frame) is the join over all paths that returned; arms of a fork run on
+            # copies of the state, so without this the effects of an arm that returns (writes through &mut, root-frame slots) would be lost
+            for i in range(depth):
+                st.frames[i] = outer.frames[i]
         st.frames.pop()
         self.call_depth -= 1
         return ret
+
+    def note_return(self, s, depth):
+        """a path of the function executing at `depth` returns in state s: accumulate the frames below it"""
+        ro = getattr(self, "ret_outer", None)
+        if not ro:
+            return
+        snap = State([dict(f) for f in s.frames[:depth]])
+        ro[-1] = snap if ro[-1] is None else ro[-1].join_with(snap)
 
     def run_region(self, fv, st, depth, start, stop, loopctx, start_idx=0, skip_first_stop=False):
         """Run from block `start` until `stop` (exclusive) or return.  Returns the joined return value if the region
@@ -1111,6 +1129,7 @@ class Interp:
             elif k == "return":
                 rv = frame.get(0, ("st", ()))
                 ret = join(ret, rv) if ret is not None else rv
+                self.note_return(st, depth)
                 frame["__dead"] = True
                 return ret
             elif k in ("unreachable", "resume", "terminate"):
@@ -1563,6 +1582,7 @@ class Interp:
             elif k == "return":
                 rv = frame.get(0, ("st", ()))
                 rets[0] = join(rets[0], rv) if rets[0] is not None else rv
+                self.note_return(s, depth)
                 return None
             elif k in ("unreachable", "resume", "terminate"):
                 return None
@@ -1678,6 +1698,7 @@ class Interp:
             elif k == "return":
                 rv = frame.get(0, ("st", ()))
                 rets[0] = join(rets[0], rv) if rets[0] is not None else rv
+                self.note_return(s, depth)
                 return None
             elif k in ("unreachable", "resume", "terminate"):
                 return None
